@@ -128,9 +128,65 @@ impl Graph {
         m
     }
 
+    /// Adjoints for large graphs (deep chains): local Jacobian-transpose products are still obtained
+    /// by forward-mode (dual-number) evaluation of the reference definition of each single
+    /// operation, but they are accumulated edge by edge in reverse topological order, which is
+    /// linear in the graph size. Cross-checked against `adjoints_pure` on small graphs.
+    pub fn adjoints_edgewise(&self, root: usize, seed: &[f64]) -> BTreeMap<usize, Adjoint> {
+        let r = self.reach(root);
+        let mut out: BTreeMap<usize, Adjoint> = BTreeMap::new();
+        for n in &r {
+            let ne = numel(&self.nodes[*n].dims);
+            out.insert(*n, Adjoint { a: vec![0.0; ne], mag: vec![0.0; ne] });
+        }
+        out.insert(root, Adjoint { a: seed.to_vec(), mag: seed.iter().map(|x| x.abs()).collect() });
+        for &n in r.iter().rev() {
+            let nd = &self.nodes[n];
+            if !nd.has_graph {
+                continue;
+            }
+            let (an, mn) = {
+                let x = &out[&n];
+                (x.a.clone(), x.mag.clone())
+            };
+            let consts: Vec<Vec<Dual>> = nd.edges.iter().map(|ed| self.nodes[ed.node].vals.iter().map(|v| Dual::c(*v)).collect()).collect();
+            for (k, ed) in nd.edges.iter().enumerate() {
+                if !ed.tracked {
+                    continue;
+                }
+                let ce = self.nodes[ed.node].vals.len();
+                for e in 0..ce {
+                    let mut mine = consts[k].clone();
+                    mine[e] = Dual::var(self.nodes[ed.node].vals[e]);
+                    let args: Vec<(&[usize], &[Dual])> = nd.edges.iter().enumerate().map(|(j, ed2)| (&self.nodes[ed2.node].dims[..], if j == k { &mine[..] } else { &consts[j][..] })).collect();
+                    let res = eval::<Dual>(nd.op.as_ref().unwrap(), &args);
+                    let mut s = 0.0;
+                    let mut sm = 0.0;
+                    for (i, x) in res.iter().enumerate() {
+                        s += an[i] * x.d;
+                        sm += mn[i] * x.a;
+                    }
+                    let t = out.get_mut(&ed.node).unwrap();
+                    t.a[e] += s;
+                    t.mag[e] += sm;
+                }
+            }
+        }
+        out
+    }
+
+    pub fn adjoints(&self, root: usize, seed: &[f64]) -> BTreeMap<usize, Adjoint> {
+        let r = self.reach(root);
+        if r.len() > 40 {
+            self.adjoints_edgewise(root, seed)
+        } else {
+            self.adjoints_pure(root, seed)
+        }
+    }
+
     /// Seed-weighted adjoints of every node reachable from `root`, by forward-mode perturbation
     /// of each element of each reachable node, with tangents flowing through tracked edges only.
-    pub fn adjoints(&self, root: usize, seed: &[f64]) -> BTreeMap<usize, Adjoint> {
+    pub fn adjoints_pure(&self, root: usize, seed: &[f64]) -> BTreeMap<usize, Adjoint> {
         let r = self.reach(root);
         let order: Vec<usize> = r.iter().copied().collect(); // ids increase with creation: topological
         let mut out = BTreeMap::new();
